@@ -99,36 +99,78 @@ Definition pow2Q (e : Z) : Q :=
   | Zneg p => 1 # (Pos.pow 2 p)
   end.
 
-(* floor(log2 x) for x > 0 *)
-Definition ilog2Q (x : Q) : Z :=
-  let e := (Z.log2 (Qnum x) - Z.log2 (Zpos (Qden x)))%Z in
-  if Qle_bool (pow2Q e) x then e else (e - 1)%Z.
-
 Definition floorQ (x : Q) : Z := (Qnum x / Zpos (Qden x))%Z.
 Definition ceilQ (x : Q) : Z := (- ((- Qnum x) / Zpos (Qden x)))%Z.
 
-(* nearest integer, ties to even *)
-Definition round_half_even (x : Q) : Z :=
-  let d := Zpos (Qden x) in
-  let f := (Qnum x / d)%Z in
-  match (2 * (Qnum x mod d) ?= d)%Z with
+(* The numbers at hand have up to 2100 binary digits (2^-1074, 1e300): everything is done with
+   shifts, and a division by a power of two is a shift (Z.div is quadratic). *)
+
+(* number of trailing zero bits *)
+Fixpoint tz (p : positive) : N :=
+  match p with xO p' => N.succ (tz p') | _ => 0%N end.
+Definition is_pow2 (p : positive) : bool := Pos.eqb (Pos.shiftr p (tz p)) 1.
+
+(* floor(log2 (n / d)), n, d > 0 *)
+Definition ilog2_frac (n d : positive) : Z :=
+  let e := (Z.log2 (Zpos n) - Z.log2 (Zpos d))%Z in
+  let ge :=            (* 2^e <= n / d *)
+    match e with
+    | Zneg p => (d <=? Pos.shiftl n (Npos p))%positive
+    | Z0 => (d <=? n)%positive
+    | Zpos p => (Pos.shiftl d (Npos p) <=? n)%positive
+    end in
+  if ge then e else (e - 1)%Z.
+
+(* quotient and remainder of a >= 0 by b *)
+Definition div_eucl_fast (a : Z) (b : positive) : Z * Z :=
+  if is_pow2 b then
+    let k := Z.of_N (tz b) in
+    let f := Z.shiftr a k in (f, (a - Z.shiftl f k)%Z)
+  else Z.div_eucl a (Zpos b).
+
+(* the integer nearest to a / b, ties to even (a >= 0) *)
+Definition rne_div (a : Z) (b : positive) : Z :=
+  let '(f, r) := div_eucl_fast a b in
+  match (2 * r ?= Zpos b)%Z with
   | Lt => f
   | Gt => (f + 1)%Z
   | Eq => if Z.even f then f else (f + 1)%Z
   end.
 
-(* the exponent of the last place of x > 0 *)
-Definition ulp_exp (x : Q) : Z := Z.max (ilog2Q x - 52) (-1074).
+(* f * 2^qe in lowest terms, f >= 0 *)
+Definition dyadic (f : Z) (qe : Z) : Q :=
+  match f with
+  | Zpos p =>
+      match qe with
+      | Zneg k => let t := N.min (tz p) (Npos k) in
+                  Zpos (Pos.shiftr p t) # Pos.shiftl 1 (Npos k - t)
+      | _ => inject_Z (Z.shiftl f qe)
+      end
+  | _ => 0
+  end.
 
-Definition rnd_pos (x : Q) : Q :=
-  let qe := ulp_exp x in
-  Qred (inject_Z (round_half_even (x * pow2Q (- qe))) * pow2Q qe).
+(* the exponent of the last place of n / d > 0: binary64 has 53 digits, subnormals end at 2^-1074 *)
+Definition ulp_exp (n d : positive) : Z := Z.max (ilog2_frac n d - 52) (-1074).
+
+(* common trailing zeros of numerator and denominator removed (cheap; Q values here are sums and
+   products of dyadic numbers, never reduced otherwise) *)
+Definition rnd_pos (n d : positive) : Q :=
+  let t := N.min (tz n) (tz d) in
+  let n := Pos.shiftr n t in
+  let d := Pos.shiftr d t in
+  let qe := ulp_exp n d in
+  let f := match qe with
+           | Zneg k => rne_div (Zpos (Pos.shiftl n (Npos k))) d
+           | Z0 => rne_div (Zpos n) d
+           | Zpos k => rne_div (Zpos n) (Pos.shiftl d (Npos k))
+           end in
+  dyadic f qe.
 
 Definition rnd (x : Q) : Q :=
   match Qnum x with
   | Z0 => 0
-  | Zpos _ => rnd_pos x
-  | Zneg _ => Qred (- rnd_pos (- x))
+  | Zpos n => rnd_pos n (Qden x)
+  | Zneg n => - rnd_pos n (Qden x)
   end.
 
 Definition is_inf (y : Q) : bool := Qle_bool (pow2Q 1024) (Qabs y).
@@ -201,7 +243,8 @@ Definition nbins_np (r : rule) (k : dkind) (n : N) (lo hi : Q) (d : Q) : option 
   match k with
   | DInt =>
       if Qle_bool (NQ Kx) (hi - lo) then general
-      else Some (Z.to_N (ceilQ (rnd (hi - lo))))         (* width < 1 -> width = 1 *)
+      else Some (Z.to_N (ceilQ (hi - lo)))     (* width < 1 -> width = 1: int(ceil(delta / 1)); the
+                                                  integer delta < bins_exact < 2^42 is a float64 *)
   | DFloat =>
       if Qle_bool tiny_range d then general else None
   end.
